@@ -35,6 +35,13 @@ func stdFSPopulation(t *testing.T) *fsPopulation {
 	return newFSPopulation(t, "fsstd", []WalletSpec{w1, w2, {Name: "Wallet 3", Kind: "distributed"}})
 }
 
+// daemonLogLevel draws the daemon's log-level setting (decision 0 = the default).
+func daemonLogLevel(rc *RunCtx) string {
+	l := []string{"", "", "info", "trace", "debug", "warn", "error", "none"}[rc.Ch.Pick(8, 0)]
+	rc.Stats.Inc("daemon_runs_with_log_level_"+l, 1)
+	return l
+}
+
 // transportDown says whether an error of a call means "no answer from the process" (as opposed to an answer that
 // says no).
 func transportDown(err error) bool {
@@ -56,7 +63,7 @@ func runDaemonHist(t *testing.T, rc *RunCtx, prop string) {
 	all := `{"client-test01": {"Wallet 1": ["All"], "Wallet 2": ["All"]}}`
 	how := ch.Pick(6, 0)
 	home, envOnly := how == 3, how == 4
-	d := NewDaemon(t, rc, DaemonCfg{Pop: pop, PermissionsJSON: all, Pruning: ch.Pick(2, 0) == 1, HomeConfig: home, EnvConfig: envOnly})
+	d := NewDaemon(t, rc, DaemonCfg{Pop: pop, PermissionsJSON: all, Pruning: ch.Pick(2, 0) == 1, HomeConfig: home, EnvConfig: envOnly, LogLevel: daemonLogLevel(rc)})
 	defer d.Close()
 	if home {
 		rc.Stats.Inc("daemon_runs_configured_from_home_directory", 1)
@@ -201,7 +208,7 @@ func runDaemonEdge(t *testing.T, rc *RunCtx, prop string) {
 	adminSets := [][]string{nil, {"127.0.0.2"}, {"127.0.0.1", "127.0.0.3"}, {"127.0.0.20", "10.0.0.1"}}
 	admins := adminSets[ch.Pick(len(adminSets), 0)]
 	noCA := prop == "C19" && ch.Pick(3, 0) == 2
-	d := NewDaemon(t, rc, DaemonCfg{Pop: pop, AdminIPs: admins, NoCA: noCA})
+	d := NewDaemon(t, rc, DaemonCfg{Pop: pop, AdminIPs: admins, NoCA: noCA, LogLevel: daemonLogLevel(rc)})
 	defer d.Close()
 	if err := d.Start(); err != nil {
 		rc.Violate("HARNESS", "daemon-did-not-start", err.Error(), 0)
@@ -372,7 +379,7 @@ func runDaemonPerm(t *testing.T, rc *RunCtx, prop string) {
 		sb.WriteString("}")
 	}
 	sb.WriteString("}")
-	d := NewDaemon(t, rc, DaemonCfg{Pop: pop, PermissionsJSON: sb.String()})
+	d := NewDaemon(t, rc, DaemonCfg{Pop: pop, PermissionsJSON: sb.String(), LogLevel: daemonLogLevel(rc)})
 	defer d.Close()
 	if err := d.Start(); err != nil {
 		rc.Violate("HARNESS", "daemon-did-not-start", err.Error(), 0)
